@@ -71,7 +71,11 @@ let () =
             let ttbl = Hashtbl.create 16 in
             let exs = List.map (fun (x1, x2, t, d, o, tg) ->
               let inp = [parse_pout x1; parse_pout x2] in
-              Hashtbl.replace tbl (key inp) (parse_pout o);
+              (* a team: the <out> column holds the members' outputs m1/m2/...; the
+                 team's output is the running mean of the defined ones *)
+              let ov = if String.contains o '/' then team_out (List.map parse_pout (String.split_on_char '/' o))
+                       else parse_pout o in
+              Hashtbl.replace tbl (key inp) ov;
               (if tg <> "-" then
                  match String.split_on_char ':' tg with
                  | [l; s] -> Hashtbl.replace ttbl (key inp) (z_of_int (int_of_string l), f64_of_hex s)
